@@ -1298,8 +1298,9 @@ class Signature:
                     composite,
                     ctx,
                     typevar_values,
-                    # If position is None we can't narrow so don't bother.
-                    is_overload=is_overload and position is not None,
+                    # We can only narrow an argument we can put back: one at a positional
+                    # index or under a keyword (not *args, **kwargs, a default, ...).
+                    is_overload=is_overload and isinstance(position, (int, str)),
                 )
             )
             if tv_map is None:
